@@ -8,7 +8,7 @@ func init() {
 		Run:         runC18,
 		SelfTest: []Mutation{
 			{Name: "p-norm of the raw coordinates", File: "model3d/parameterization.go",
-				Old: "math.Pow(math.Pow(abs.X, p)+math.Pow(abs.Y, p), 1/p)", New: "math.Pow(math.Pow(v.X, p)+math.Pow(v.Y, p), 1/p)", Rule: "POWABS", Expect: "PNormBoundary"},
+				Old: "\t\tabs := v.Abs()\n", New: "\t\tabs := v\n", Rule: "POWABS", Expect: "PNormBoundary"},
 			{Name: "transposed Floater system", File: "model3d/parameterization.go",
 				Old: "matrix.Set(i, j, weight)", New: "matrix.Set(j, i, weight)", Rule: "ROWIDX", Expect: "floater97"},
 			{Name: "tall split starts at the x midpoint", File: "model3d/parameterization.go",
